@@ -23,6 +23,7 @@ import (
 	"fmt"
 	"net"
 	"os"
+	"reflect"
 	"sort"
 	"strconv"
 	"strings"
@@ -37,32 +38,59 @@ import (
 	"github.com/lni/drummer/v3/tests"
 	"github.com/lni/vfs"
 	"google.golang.org/grpc"
+	"google.golang.org/grpc/codes"
+	"google.golang.org/grpc/status"
 )
 
 // ---------------------------------------------------------------- scripted Drummer service
 
+// what the scripted Drummer servers of one run share: the scripted request batches (whichever server accepts a report hands
+// them out, a server that fails the call does not) and the order in which the servers were contacted
+type vShared struct {
+	mu      sync.Mutex
+	replies map[string][]*pb.NodeHostRequest // raft address -> scripted batch (handed out once)
+	order   []int                            // server ids in order of the calls they received
+}
+
 type vDrummer struct {
 	pb.UnimplementedDrummerServer
-	mu       sync.Mutex
-	versions map[uint64]uint64
-	replies  map[string][]*pb.NodeHostRequest // raft address -> scripted batch (handed out once)
-	received []*pb.NodeHostInfo
-	calls    []string
+	id         int
+	sh         *vShared
+	mu         sync.Mutex
+	versions   map[uint64]uint64
+	failIndex  bool // GetShardConfigChangeIndexList fails
+	failReport bool // ReportAvailableNodeHost fails AFTER the report has arrived (the exchange breaks half way)
+	received   []*pb.NodeHostInfo
+	calls      []string
 }
 
 func (d *vDrummer) reset() {
 	d.mu.Lock()
 	defer d.mu.Unlock()
 	d.versions = make(map[uint64]uint64)
-	d.replies = make(map[string][]*pb.NodeHostRequest)
+	d.failIndex, d.failReport = false, false
 	d.received = nil
 	d.calls = nil
+	d.sh.mu.Lock()
+	d.sh.replies = make(map[string][]*pb.NodeHostRequest)
+	d.sh.order = nil
+	d.sh.mu.Unlock()
+}
+
+func (d *vDrummer) contacted() {
+	d.sh.mu.Lock()
+	d.sh.order = append(d.sh.order, d.id)
+	d.sh.mu.Unlock()
 }
 
 func (d *vDrummer) GetShardConfigChangeIndexList(ctx context.Context, e *pb.Empty) (*pb.ConfigChangeIndexList, error) {
 	d.mu.Lock()
 	defer d.mu.Unlock()
 	d.calls = append(d.calls, "versions")
+	d.contacted()
+	if d.failIndex {
+		return nil, status.Error(codes.Unavailable, "scripted failure of the index list call")
+	}
 	m := make(map[uint64]uint64)
 	for k, v := range d.versions {
 		m[k] = v
@@ -74,9 +102,15 @@ func (d *vDrummer) ReportAvailableNodeHost(ctx context.Context, nhi *pb.NodeHost
 	d.mu.Lock()
 	defer d.mu.Unlock()
 	d.calls = append(d.calls, "report")
+	d.contacted()
 	d.received = append(d.received, nhi)
-	reqs := d.replies[nhi.RaftAddress]
-	delete(d.replies, nhi.RaftAddress)
+	if d.failReport {
+		return nil, status.Error(codes.Unavailable, "scripted failure of the report call")
+	}
+	d.sh.mu.Lock()
+	defer d.sh.mu.Unlock()
+	reqs := d.sh.replies[nhi.RaftAddress]
+	delete(d.sh.replies, nhi.RaftAddress)
 	return &pb.NodeHostRequestCollection{Requests: reqs}, nil
 }
 
@@ -126,6 +160,10 @@ type vEnv struct {
 	w       *bufio.Writer
 	d       *vDrummer
 	daddr   string
+	ds      []*vDrummer // all scripted servers (ds[0] == d); the first nds are the ones the agent is configured with
+	daddrs  []string
+	nds     int
+	newSrv  func() (*vDrummer, string)
 	hosts   []*vHost
 	fake    map[string]string // token x<k> -> address
 	tok     map[string]string // address -> token
@@ -214,6 +252,11 @@ func (e *vEnv) address(tok string) string {
 		return "not an address"
 	}
 	panic("unknown address token " + tok)
+}
+
+// the Drummer servers the agents are configured with
+func (e *vEnv) masters() []string {
+	return append([]string{}, e.daddrs[:e.nds]...)
 }
 
 func (e *vEnv) closeHosts() {
@@ -368,13 +411,52 @@ func (e *vEnv) reportJSON(r *pb.NodeHostInfo) map[string]interface{} {
 	}
 }
 
-func (e *vEnv) emitReports(kind string, h int, err interface{}, extra ...interface{}) {
-	recv, calls := e.d.take()
+func (e *vEnv) takeServer(d *vDrummer) map[string]interface{} {
+	recv, calls := d.take()
 	rs := []map[string]interface{}{}
 	for _, r := range recv {
 		rs = append(rs, e.reportJSON(r))
 	}
-	o := map[string]interface{}{"k": kind, "h": h, "received": rs, "calls": calls}
+	d.mu.Lock()
+	mode := "ok"
+	if d.failIndex {
+		mode = "failindex"
+	} else if d.failReport {
+		mode = "failreport"
+	}
+	vs := [][]uint64{}
+	for k, v := range d.versions {
+		vs = append(vs, []uint64{k, v})
+	}
+	d.mu.Unlock()
+	sort.Slice(vs, func(i, j int) bool { return vs[i][0] < vs[j][0] })
+	return map[string]interface{}{"d": d.id, "received": rs, "calls": calls, "mode": mode, "versions": vs}
+}
+
+func (e *vEnv) takeOrder() []int {
+	e.d.sh.mu.Lock()
+	defer e.d.sh.mu.Unlock()
+	o := e.d.sh.order
+	e.d.sh.order = nil
+	if o == nil {
+		o = []int{}
+	}
+	return o
+}
+
+func (e *vEnv) emitReports(kind string, h int, err interface{}, extra ...interface{}) {
+	s0 := e.takeServer(e.d)
+	o := map[string]interface{}{"k": kind, "h": h, "received": s0["received"], "calls": s0["calls"]}
+	if e.nds > 1 {
+		srv := []map[string]interface{}{s0}
+		for _, d := range e.ds[1:e.nds] {
+			srv = append(srv, e.takeServer(d))
+		}
+		o["servers"] = srv
+		o["order"] = e.takeOrder()
+	} else {
+		e.takeOrder()
+	}
 	for i := 0; i+1 < len(extra); i += 2 {
 		o[extra[i].(string)] = extra[i+1]
 	}
@@ -382,6 +464,24 @@ func (e *vEnv) emitReports(kind string, h int, err interface{}, extra ...interfa
 		o["err"] = fmt.Sprintf("%v", err)
 	}
 	e.emit(o)
+}
+
+// deep copy of the parts of a NodeHostInfo the agent reads
+func vCopyNHI(n dragonboat.NodeHostInfo) dragonboat.NodeHostInfo {
+	c := n
+	c.ShardInfoList = nil
+	for _, si := range n.ShardInfoList {
+		x := si
+		if si.Replicas != nil {
+			x.Replicas = map[uint64]string{}
+			for k, v := range si.Replicas {
+				x.Replicas[k] = v
+			}
+		}
+		c.ShardInfoList = append(c.ShardInfoList, x)
+	}
+	c.LogInfo = append([]raftio.NodeInfo(nil), n.LogInfo...)
+	return c
 }
 
 func vKV(f []string) map[string]string {
@@ -502,7 +602,7 @@ func (e *vEnv) exec(f []string) {
 			nh, addr, cfg := vNewNodeHost(i)
 			dc := NewDrummerClient(nh)
 			api := fmt.Sprintf("api-h%d", i)
-			dnh := &NodeHostClient{nh: nh, client: dc, masterServers: []string{e.daddr}, apiAddress: api, ctx: e.ctx}
+			dnh := &NodeHostClient{nh: nh, client: dc, masterServers: e.masters(), apiAddress: api, ctx: e.ctx}
 			e.hosts = append(e.hosts, &vHost{nh: nh, dc: dc, dnh: dnh, addr: addr, api: api, cfg: cfg})
 			e.tok[addr] = fmt.Sprintf("h%d", i)
 		}
@@ -583,9 +683,32 @@ func (e *vEnv) exec(f []string) {
 		e.emit(map[string]interface{}{"k": "SETTLE", "ok": ok})
 	case "SLEEP":
 		time.Sleep(time.Duration(vU(f[1])) * time.Millisecond)
-	case "VER": // VER shard=spec ... ; replaces the scripted version table
+	case "DRUMMERS": // DRUMMERS n : the agents are configured with n scripted Drummer servers (every server answers from its own view)
+		n := int(vU(f[1]))
+		for len(e.ds) < n {
+			d, a := e.newSrv()
+			e.ds = append(e.ds, d)
+			e.daddrs = append(e.daddrs, a)
+		}
+		e.nds = n
+		for _, h := range e.hosts {
+			h.dnh.masterServers = e.masters()
+		}
+		e.emit(map[string]interface{}{"k": "DRUMMERS", "n": n})
+	case "DMODE": // DMODE d ok|failindex|failreport
+		d := e.ds[int(vU(f[1]))]
+		d.mu.Lock()
+		d.failIndex, d.failReport = f[2] == "failindex", f[2] == "failreport"
+		d.mu.Unlock()
+		e.emit(map[string]interface{}{"k": "DMODE", "d": d.id, "mode": f[2]})
+	case "VER": // VER [@d] shard=spec ... ; replaces the scripted version table (of server d)
 		m := map[uint64]uint64{}
 		out := [][]uint64{}
+		dd := e.d
+		if len(f) > 1 && strings.HasPrefix(f[1], "@") {
+			dd = e.ds[int(vU(f[1][1:]))]
+			f = append([]string{f[0]}, f[2:]...)
+		}
 		for _, x := range f[1:] {
 			p := strings.SplitN(x, "=", 2)
 			s := vU(p[0])
@@ -593,17 +716,17 @@ func (e *vEnv) exec(f []string) {
 			m[s] = v
 			out = append(out, []uint64{s, v})
 		}
-		e.d.mu.Lock()
-		e.d.versions = m
-		e.d.mu.Unlock()
-		e.emit(map[string]interface{}{"k": "VER", "versions": out})
+		dd.mu.Lock()
+		dd.versions = m
+		dd.mu.Unlock()
+		e.emit(map[string]interface{}{"k": "VER", "versions": out, "d": dd.id})
 	case "REQ": // REQ h k=v ... ; appended to the scripted reply for host h
 		hi := int(vU(f[1]))
 		h := e.hosts[hi]
 		req, res := e.parseReq(h, vKV(f[2:]))
-		e.d.mu.Lock()
-		e.d.replies[h.addr] = append(e.d.replies[h.addr], req)
-		e.d.mu.Unlock()
+		e.d.sh.mu.Lock()
+		e.d.sh.replies[h.addr] = append(e.d.sh.replies[h.addr], req)
+		e.d.sh.mu.Unlock()
 		res["k"] = "REQ"
 		res["h"] = hi
 		e.emit(res)
@@ -653,20 +776,49 @@ func (e *vEnv) exec(f []string) {
 				nhi.ShardInfoList = append(nhi.ShardInfoList, si)
 			}
 		}
-		var perr interface{}
-		func() {
-			defer func() {
-				if r := recover(); r != nil {
-					perr = fmt.Sprintf("panic: %v", r)
+		// optional 6th field: the servers the SAME value is sent to, one after the other (fail-over as node.go does it)
+		targets := []int{0}
+		if len(f) > 5 && f[5] != "-" {
+			targets = nil
+			for _, t := range strings.Split(f[5], ",") {
+				targets = append(targets, int(vU(t)))
+			}
+		}
+		before := vCopyNHI(nhi)
+		sends := []map[string]interface{}{}
+		var perr0 interface{}
+		for _, t := range targets {
+			var perr interface{}
+			func() {
+				defer func() {
+					if r := recover(); r != nil {
+						perr = fmt.Sprintf("panic: %v", r)
+					}
+				}()
+				ctx, cancel := context.WithTimeout(e.ctx, 10*time.Second)
+				defer cancel()
+				if err := h.dc.SendNodeHostInfo(ctx, e.daddrs[t], nhi, h.api, f[2] == "1"); err != nil {
+					perr = err
 				}
 			}()
-			ctx, cancel := context.WithTimeout(e.ctx, 10*time.Second)
-			defer cancel()
-			if err := h.dc.SendNodeHostInfo(ctx, e.daddr, nhi, h.api, f[2] == "1"); err != nil {
-				perr = err
+			if len(targets) == 1 && t == 0 {
+				perr0 = perr
+				break
 			}
-		}()
-		e.emitReports("SRPT", hi, perr)
+			s := e.takeServer(e.ds[t])
+			if perr != nil {
+				s["err"] = fmt.Sprintf("%v", perr)
+			}
+			// the caller's value after the call: still what was handed in?
+			s["mutated"] = !reflect.DeepEqual(before, nhi)
+			sends = append(sends, s)
+		}
+		if len(sends) == 0 {
+			e.emitReports("SRPT", hi, perr0, "mutated", !reflect.DeepEqual(before, nhi))
+		} else {
+			e.takeOrder()
+			e.emit(map[string]interface{}{"k": "SRPT", "h": hi, "sends": sends})
+		}
 	case "HANDLE": // HANDLE h timeout_ms
 		hi := int(vU(f[1]))
 		h := e.hosts[hi]
@@ -774,7 +926,7 @@ func (e *vEnv) exec(f []string) {
 		}
 		h.nh = nh
 		h.dc = NewDrummerClient(nh)
-		h.dnh = &NodeHostClient{nh: nh, client: h.dc, masterServers: []string{e.daddr}, apiAddress: h.api, ctx: e.ctx}
+		h.dnh = &NodeHostClient{nh: nh, client: h.dc, masterServers: e.masters(), apiAddress: h.api, ctx: e.ctx}
 		e.emit(map[string]interface{}{"k": "RESTART", "h": hi})
 	case "DUMP":
 		p := "-"
@@ -801,17 +953,30 @@ func TestVerifAgent(t *testing.T) {
 	w := bufio.NewWriter(outf)
 	defer w.Flush()
 	// scripted Drummer service
-	d := &vDrummer{}
-	d.reset()
-	lis, err := net.Listen("tcp", "127.0.0.1:0")
-	if err != nil {
-		t.Fatal(err)
+	shared := &vShared{}
+	var stops []func()
+	defer func() {
+		for _, s := range stops {
+			s()
+		}
+	}()
+	nsrv := 0
+	newSrv := func() (*vDrummer, string) {
+		d := &vDrummer{id: nsrv, sh: shared}
+		nsrv++
+		d.reset()
+		lis, err := net.Listen("tcp", "127.0.0.1:0")
+		if err != nil {
+			panic(err)
+		}
+		srv := grpc.NewServer()
+		pb.RegisterDrummerServer(srv, d)
+		go srv.Serve(lis)
+		stops = append(stops, srv.Stop)
+		return d, lis.Addr().String()
 	}
-	srv := grpc.NewServer()
-	pb.RegisterDrummerServer(srv, d)
-	go srv.Serve(lis)
-	defer srv.Stop()
-	e := &vEnv{w: w, d: d, daddr: lis.Addr().String()}
+	d, daddr := newSrv()
+	e := &vEnv{w: w, d: d, daddr: daddr, ds: []*vDrummer{d}, daddrs: []string{daddr}, nds: 1, newSrv: newSrv}
 	e.emit(map[string]interface{}{"k": "PARAMS", "local_timeout_ms": localTimeoutMs.Milliseconds(),
 		"report_second": NodeHostInfoReportSecond, "plog_cycle": persistentLogReportCycle, "region": DefaultRegion})
 	sc := bufio.NewScanner(in)
@@ -826,7 +991,10 @@ func TestVerifAgent(t *testing.T) {
 			e.scnID = f[1]
 			e.fake = map[string]string{}
 			e.tok = map[string]string{}
-			d.reset()
+			for _, x := range e.ds {
+				x.reset()
+			}
+			e.nds = 1
 			skip = false
 			e.emit(map[string]interface{}{"k": "SCN", "id": f[1]})
 			continue
